@@ -666,12 +666,18 @@ func c07RunCase(o *Out, c *c07Case, gc bool) string {
 	if !bytes.Equal(in, c.doc) {
 		return "input bytes modified by decoding"
 	}
-	for _, cn := range tr.canaries {
+	for ci, cn := range tr.canaries {
 		bs := unsafe.Slice((*byte)(cn.p), cn.n)
 		for i, x := range bs {
 			if x != 0xA5 {
 				if cn.elem != nil && c07AllZero(unsafe.Slice((*byte)(cn.elem), cn.elemN)) {
 					o.count("canary_in_zeroed_array_element", 1)
+					break
+				}
+				// an element zeroed by a short JSON array and filled again by a later duplicate of the
+				// key: the canary is zero as a whole, and encoding/json leaves it zero too
+				if cn.elem != nil && c07AllZero(bs) && c07TwinCanaryZero(c, ci) {
+					o.count("canary_in_rezeroed_array_element", 1)
 					break
 				}
 				return fmt.Sprintf("canary %s byte %d of %d changed to %#x", cn.desc, i, cn.n, x)
@@ -753,6 +759,29 @@ func c07RunCase(o *Out, c *c07Case, gc bool) string {
 		o.count("decode_err", 1)
 	}
 	return ""
+}
+
+// c07TwinCanaryZero decodes the case with encoding/json into an identically initialised
+// twin and reports whether canary number ci is all zero there as well.
+func c07TwinCanaryZero(c *c07Case, ci int) (zero bool) {
+	defer func() {
+		if recover() != nil {
+			zero = false
+		}
+	}()
+	twin := reflect.New(c.typ)
+	tt := &c07Track{}
+	c07Init(twin.Elem(), "root", tt, rand.New(rand.NewSource(c.seed)))
+	tdst := twin.Interface()
+	if c.field >= 0 {
+		tdst = twin.Elem().Field(c.field).Addr().Interface()
+	}
+	c07Decode(c, tdst, append([]byte(nil), c.doc...), true)
+	if ci >= len(tt.canaries) {
+		return false
+	}
+	cn := tt.canaries[ci]
+	return c07AllZero(unsafe.Slice((*byte)(cn.p), cn.n))
 }
 
 func c07AllZero(b []byte) bool {
